@@ -40,6 +40,7 @@ TraceNext ==
   /\ l <= Len(T) /\ E.ev = "RES" /\ l' = l + 1 /\ UNCHANGED tid
   /\ (E.both => /\ Outcome(Norm(T[1].cs), Norm(T[1].ss), E.c, E.s)
                 /\ ~E.bodyTamper)
+  /\ (E.control => E.both)                                  \* the untouched flow completes (and agrees: line above)
   /\ SentinelEnforced(Norm(T[1].cs), Norm(T[1].ss), E.cSawVer, E.cLocal)
   /\ ServerMark(Norm(T[1].ss), E.sSentVer, E.shMark)       \* what the server itself put on the wire
 Mark == IF l - 1 > TLCGet(tid) THEN TLCSet(tid, l - 1) ELSE TRUE
